@@ -377,6 +377,8 @@ class Interp:
                 return self.val(e['expr'], env)
             return ()
         if k == 'let':
+            if 'init' not in e:
+                return ()               # `let x;` — bound by the first assignment
             v = self.val(e['init'], env)
             self.bind(e['pat'], v, env)
             return ()
@@ -398,6 +400,18 @@ class Interp:
                 raise Unanalysable(f'unbound local `{p}`')
             if res.startswith('Ctor'):
                 return ('ctor', p)
+            if (res.startswith('Const') and not res.startswith('ConstParam')) or res.startswith('Static'):
+                try:
+                    cb = peel(self.ev.const_body(p))
+                except Unanalysable:
+                    cb = {}
+                if cb.get('k') in ('tup', 'struct', 'call', 'array') and not (cb.get('k') == 'array' and all(peel(x).get('k') == 'lit' for x in cb.get('elems', []))):
+                    return self.val(cb, {})
+            if res in ('Fn', 'AssocFn'):
+                wb = self._workspace_body(e)
+                if wb is not None:
+                    return ('closure', {'params': wb.get('params', []), 'body': wb['body'], 'fnval': wb.get('def')}, {})
+                raise Unanalysable(f'function `{p}` used as a value has no body in the facts')
             try:
                 return self.ev.integer(e, env)
             except Unanalysable:
@@ -506,6 +520,8 @@ class Interp:
             raise Unanalysable('non-exhaustive match in evaluation')
         if k == 'tup':
             return tuple(self.val(x, env) for x in e['elems'])
+        if k == 'array' and 'elems' in e:
+            return tuple(self.val(x, env) for x in e['elems'])
         if k == 'closure':
             return ('closure', e, dict(env))
         if k == 'call':
@@ -528,6 +544,8 @@ class Interp:
                 return ('ctor', p, tuple(args))
             if seg == 'from' and len(args) == 1:
                 return args[0]
+            if seg == 'new' and len(args) == 1 and p.split('::<')[0] in ('alloc::boxed::Box', 'alloc::rc::Rc', 'alloc::sync::Arc', 'core::cell::RefCell', 'core::cell::Cell'):
+                return args[0]          # a box is its content
             if 'RangeInclusive' in p and seg == 'new':
                 return ('range', args[0], args[1])
             if seg == 'into_iter' and len(args) == 1:
@@ -566,7 +584,13 @@ class Interp:
                     return self._iter_next(recv)
                 if name == 'clone' and not args:
                     return recv.clone()
-                if name in ('by_ref', 'peekable', 'into_iter', 'iter') and not args:
+                if name == 'peek' and not args:
+                    return opt(recv.items[recv.pos] if recv.pos < len(recv.items) else None)
+                if name == 'next_back' and not args:
+                    return opt(recv.items.pop() if recv.pos < len(recv.items) else None)
+                if name == 'len' and not args:
+                    return len(recv.items) - recv.pos
+                if name in ('by_ref', 'peekable', 'into_iter', 'iter', 'fuse') and not args:
                     return recv
                 if name == 'nth' and len(args) == 1 and isinstance(args[0], int):
                     recv.pos = min(len(recv.items), recv.pos + args[0])
@@ -633,7 +657,7 @@ class Interp:
                                 out.append(r[2][0])
                         return ('iter', out)
             if isinstance(recv, (str, tuple)) and not (isinstance(recv, tuple) and recv and recv[0] in ('ctor', 'struct', 'range', 'closure', 'iter')):
-                if name in ('iter', 'into_iter') and not args and isinstance(recv, tuple):
+                if name in ('iter', 'into_iter', 'iter_mut', 'drain') and not args and isinstance(recv, tuple):
                     return IterObj(recv)
                 if name in ('bytes', 'as_bytes') and not args and isinstance(recv, str):
                     b = tuple(recv.encode('utf-8'))
@@ -702,6 +726,22 @@ class Interp:
                 some = recv[1].endswith('::Some')
                 if name == 'is_none':
                     return not some
+                if name == 'or_else' and len(args) == 1:
+                    return recv if some else self.apply(args[0], [])
+                if name == 'or' and len(args) == 1:
+                    return recv if some else args[0]
+                if name == 'and_then' and len(args) == 1:
+                    return self.apply(args[0], [recv[2][0]]) if some else recv
+                if name == 'filter' and len(args) == 1:
+                    return recv if some and self.apply(args[0], [recv[2][0]]) else ('ctor', 'core::option::Option::None')
+                if name in ('ok_or', 'ok_or_else') and len(args) == 1:
+                    if some:
+                        return ('ctor', 'core::result::Result::Ok', recv[2])
+                    return ('ctor', 'core::result::Result::Err', ((args[0] if name == 'ok_or' else self.apply(args[0], [])),))
+                if name in ('unwrap', 'expect'):
+                    if some:
+                        return recv[2][0]
+                    raise EvalPanic(f'`{name}` on None (line {e.get("l")})')
                 if name == 'unwrap_or' and len(args) == 1:
                     return recv[2][0] if some else args[0]
                 if name in ('map_or',) and len(args) == 2:
@@ -766,6 +806,8 @@ class Interp:
     MAX_DEPTH = 12
 
     def apply(self, clo, args):
+        if isinstance(clo, tuple) and len(clo) == 2 and clo[0] == 'ctor':
+            return ('ctor', clo[1], tuple(args))        # a tuple-variant constructor used as a function (`.map(Some)`)
         if not (isinstance(clo, tuple) and clo and clo[0] == 'closure'):
             raise Unanalysable('call of a value that is not a closure')
         _, node, cenv = clo
@@ -832,6 +874,8 @@ class Interp:
         if k == 'p_bind':
             if 'sub' in p and not self.matches(p['sub'], v, env):
                 return False
+            if isinstance(v, tuple) and len(v) == 2 and v[0] == 'iter':
+                v = IterObj(v[1])           # a bound iterator has state (`let mut it = ..; it.next()`)
             env[p['name']] = v
             return True
         if k == 'p_or':
@@ -913,6 +957,15 @@ class FxInterp(Interp):
     """Interp that also records the effects of a statement fragment: assignments (to a
     local or a field, keyed by its name) and whether `break` is reached."""
 
+    def _store_field(self, l, value, env):
+        """`x.f = v` on a modelled struct value updates it in place (the value is shared by everything that borrowed it)"""
+        try:
+            base = self.val(l['base'], env)
+        except Unanalysable:
+            return
+        if isinstance(base, tuple) and len(base) == 3 and base[0] == 'struct' and isinstance(base[2], dict) and l.get('name') in base[2]:
+            base[2][l['name']] = value
+
     def effects(self, e, env):
         env = dict(env)
         env['@assign'] = {}
@@ -935,6 +988,8 @@ class FxInterp(Interp):
                 env[l['path']] = env['@assign'][name]
             elif l.get('k') == 'field' and ('.' + name) in env:
                 env['.' + name] = env['@assign'][name]
+            elif l.get('k') == 'field':
+                self._store_field(l, env['@assign'][name], env)
             return ()
         if k == 'assignop':
             l = peel(e['lhs'])
@@ -950,7 +1005,10 @@ class FxInterp(Interp):
                 env[l['path']] = new
             elif l.get('k') == 'field' and ('.' + name) in env:
                 env['.' + name] = new
+            elif l.get('k') == 'field':
+                self._store_field(l, new, env)
             return ()
+
         if k == 'break':
             raise Brk()
         if k == 'field':
@@ -1075,10 +1133,11 @@ class RecInterp(FxInterp):
     a recorded call evaluates to ('rec', name, receiver value or None, [argument values]) so that later records show what flowed where.
     `x.field.take()` on a modelled struct empties the field."""
 
-    def __init__(self, ev, record, record_fns=()):
+    def __init__(self, ev, record, record_fns=(), stubs=None):
         super().__init__(ev)
         self.record = set(record)
         self.record_fns = set(record_fns)
+        self.stubs = dict(stubs or {})      # method name -> value it evaluates to (a modelled getter)
         self.calls = []
 
     def val(self, e, env):
@@ -1097,6 +1156,19 @@ class RecInterp(FxInterp):
                         args.append(('opaque',))
                 self.calls.append((last_seg(path), args))
                 return ('rec', last_seg(path), None, args)
+        if k == 'match' and 'TryDesugar' in (e.get('src') or ''):
+            # `recorded_call(..)?`: the recorded effect is assumed to succeed
+            sc = e['scrut']
+            inner = sc['args'][0] if sc.get('k') == 'call' and sc.get('args') else sc
+            v = self.val(inner, env)
+            if isinstance(v, tuple) and v and v[0] in ('rec', 'opaque'):
+                return v
+            if isinstance(v, tuple) and v and v[0] == 'ctor':
+                if v[1].endswith('Result::Ok') or v[1].endswith('Option::Some'):
+                    return v[2][0]
+                if v[1].endswith('Result::Err') or v[1].endswith('Option::None'):
+                    raise Ret(v)
+            raise Unanalysable('`?` on a value the evaluator does not model')
         if k == 'mcall' and e.get('name') == 'take' and not e.get('args'):
             r = peel(e['recv'])
             if r.get('k') == 'field':
@@ -1108,6 +1180,8 @@ class RecInterp(FxInterp):
                     old = base[2][r['name']]
                     base[2][r['name']] = ('ctor', 'core::option::Option::None')
                     return old
+        if k == 'mcall' and e.get('name') in self.stubs:
+            return self.stubs[e['name']]
         if k == 'mcall' and e.get('name') in self.record:
             args = []
             for a in e.get('args', []):
@@ -1129,4 +1203,14 @@ class RecInterp(FxInterp):
                 recv = None
             if isinstance(recv, tuple) and recv and recv[0] == 'rec':
                 return recv
+            if recv == ('opaque',) and self._workspace_method(e) is None:
+                return ('opaque',)          # whatever is derived from an unmodelled value is unmodelled (`path.to_vec()`, `x.clone()`)
+        if k == 'struct' and 'Range' not in (e.get('path') or ''):
+            f = {}
+            for x in e.get('fields', []):
+                try:
+                    f[x['name']] = self.val(x['e'], env)
+                except Unanalysable:
+                    f[x['name']] = ('opaque',)
+            return ('struct', e.get('path') or '', f)
         return super().val(e, env)
